@@ -28,6 +28,24 @@ TLA_CP = "/opt/veriftools/tla/tla2tools.jar:/opt/veriftools/tla/CommunityModules
 NCPU = os.cpu_count() or 4
 
 
+def panic_site(out, srcdir):
+    """Where a panic / fatal error of a Go test process came from: the innermost frame that lies in the scratch source
+    directory, in the stack of the goroutine that panicked (the first one printed).  Returns (basename, line, is_repo_code)
+    or None.  A panic whose innermost frame there is harness code (zz_vf_*, *_test.go) is a bug of the machinery - never
+    a verdict; frames of the Go runtime and library do not count either way."""
+    m = re.search(r"^(panic: .*|fatal error: .*)$", out, re.M)
+    if not m:
+        return None
+    rest = out[m.end():]
+    g = re.search(r"^goroutine \d+ [^\n]*\n((?:.+\n)+)", rest, re.M)
+    block = g.group(1) if g else rest[:20000]
+    for f, ln in re.findall(r"^\s+(\S+\.go):(\d+)", block, re.M):
+        if f.startswith(srcdir.rstrip("/") + "/"):
+            b = os.path.basename(f)
+            return b, ln, not ("zz_vf_" in b or b.endswith("_test.go"))
+    return None
+
+
 class Hang(Exception):
     """raised after a hang inside the code under test has been recorded as a violation"""
 
